@@ -346,13 +346,22 @@ impl<D: DataMut> ReaderFrom for VecZnx<D> {
         let len: usize = reader.read_u64::<LittleEndian>()? as usize;
 
         // Validate metadata consistency: n * cols * size * sizeof(i64) must match data length.
-        let expected_len: usize = new_n * new_cols * new_size * size_of::<i64>();
-        if expected_len != len {
+        // Bytes per limb; `None` if the header dimensions overflow `usize`.
+        let limb_bytes: Option<usize> = new_n
+            .checked_mul(new_cols)
+            .and_then(|x| x.checked_mul(size_of::<i64>()));
+        let expected_len: Option<usize> = limb_bytes.and_then(|x| x.checked_mul(new_size));
+        if expected_len != Some(len) {
             return Err(std::io::Error::new(
                 std::io::ErrorKind::InvalidData,
-                format!(
-                    "VecZnx metadata inconsistent: n={new_n} * cols={new_cols} * size={new_size} * 8 = {expected_len} != data len={len}"
-                ),
+                format!("VecZnx metadata inconsistent: n={new_n} * cols={new_cols} * size={new_size} * 8 != data len={len}"),
+            ));
+        }
+
+        if new_size > new_max_size {
+            return Err(std::io::Error::new(
+                std::io::ErrorKind::InvalidData,
+                format!("VecZnx metadata inconsistent: size={new_size} > max_size={new_max_size}"),
             ));
         }
 
@@ -363,13 +372,27 @@ impl<D: DataMut> ReaderFrom for VecZnx<D> {
                 format!("VecZnx buffer too small: self.data.len()={} < read len={len}", buf.len()),
             ));
         }
+
+        // The limb capacity is a property of the receiving buffer, not of the stream:
+        // never advertise more limbs than `self.data` can hold.
+        let capacity: usize = match limb_bytes {
+            Some(0) => new_max_size,
+            Some(b) => buf.len() / b,
+            None => {
+                return Err(std::io::Error::new(
+                    std::io::ErrorKind::InvalidData,
+                    format!("VecZnx metadata inconsistent: n={new_n} * cols={new_cols} * 8 overflows"),
+                ));
+            }
+        };
+
         reader.read_exact(&mut buf[..len])?;
 
         // Only commit metadata after successful read.
         self.n = new_n;
         self.cols = new_cols;
         self.size = new_size;
-        self.max_size = new_max_size;
+        self.max_size = new_max_size.min(capacity);
         Ok(())
     }
 }
